@@ -37,16 +37,41 @@ Fixpoint gfs_append (k : name) (f : fnode) (g : gfs) : gfs :=
 
 (** ** @skip / @include (collectFieldsImpl lines 494-504, builtins.go FieldCollectionFilter) *)
 Definition eval_cond (E : env) (c : cond) : option bool :=
-  match c with CLit b => Some b | CVar v => assoc v E end.
+  match c with
+  | CLit b => Some b
+  | CVar v => match assoc v E with Some (Some b) => Some b | _ => None end
+  end.
 
-(** a directive whose arguments do not coerce (variable without value) is ignored *)
+(** a directive whose arguments do not coerce (coerceArgumentValues fails: the variable has no
+    value, or holds null for the Boolean! argument) leaves the selection out ... *)
 Definition dir_skips (E : env) (d : directive) : bool :=
   match d with
-  | DSkip c => match eval_cond E c with Some b => b | None => false end
-  | DInclude c => match eval_cond E c with Some b => negb b | None => false end
+  | DSkip c _ _ => match eval_cond E c with Some b => b | None => true end
+  | DInclude c _ _ => match eval_cond E c with Some b => negb b | None => true end
   | DOther => false
   end.
 Definition skipped (E : env) (ds : list directive) : bool := existsb (dir_skips E) ds.
+
+(** ... and its error is appended to e.Errors: no path; located at the directive when the argument
+    has no value ("The if argument is required.", validator/coerce.go:65), at the variable when it
+    holds null ("The if argument cannot be null.", coerce.go:73).  The loop over the directives
+    has no early exit: every failing directive of the selection reports. *)
+Definition cond_error (E : env) (c : cond) (dp vp : pos) : list gerror :=
+  match c with
+  | CLit _ => []
+  | CVar v => match assoc v E with
+              | Some (Some _) => []
+              | Some None => [{| e_path := []; e_locs := [vp] |}]
+              | None => [{| e_path := []; e_locs := [dp] |}]
+              end
+  end.
+Definition dir_errors (E : env) (d : directive) : list gerror :=
+  match d with
+  | DSkip c dp vp => cond_error E c dp vp
+  | DInclude c dp vp => cond_error E c dp vp
+  | DOther => []
+  end.
+Definition dirs_errors (E : env) (ds : list directive) : list gerror := flat_map (dir_errors E) ds.
 
 (** ** doesFragmentTypeApply (after schemaType) *)
 Inductive applies_res := ApYes | ApNo | ApPanic.
@@ -130,6 +155,54 @@ Section Collect.
                 end
             end
       end.
+
+  (** the errors collectFieldsImpl appends to e.Errors during that same traversal (directives whose
+      arguments do not coerce).  Kept apart from [collect_impl] — same recursion, same visited
+      set — so that the grouped field set keeps its shape.  A selection with a failing directive
+      is always skipped, so only skipped selections contribute. *)
+  Fixpoint collect_errs (fuel : nat) (ot : name) {struct fuel}
+    : list selection -> list name -> list name * list gerror :=
+    fix go (sels : list selection) (visited : list name) {struct sels} : list name * list gerror :=
+      match sels with
+      | [] => (visited, [])
+      | s :: rest =>
+          if skipped E (sel_dirs s) then
+            let r := go rest visited in (fst r, dirs_errors E (sel_dirs s) ++ snd r)
+          else
+            let descend (sub : list selection) (visited' : list name) :=
+              match fuel with
+              | O => (visited', [])
+              | Datatypes.S fuel' =>
+                  let r1 := collect_errs fuel' ot sub visited' in
+                  let r2 := go rest (fst r1) in (fst r2, snd r1 ++ snd r2)
+              end in
+            match s with
+            | SField _ _ _ _ _ => go rest visited
+            | SSpread n _ _ =>
+                if mem n visited then go rest visited
+                else
+                  let visited' := n :: visited in
+                  match find_frag n (frags D) with
+                  | None => go rest visited'
+                  | Some f =>
+                      match type_applies S ot (fr_cond f) with
+                      | ApNo => go rest visited'
+                      | ApPanic => (visited', [])
+                      | ApYes => descend (fr_sels f) visited'
+                      end
+                  end
+            | SInline tc _ _ sub =>
+                match tc with
+                | None => descend sub visited
+                | Some c =>
+                    match type_applies S ot c with
+                    | ApNo => go rest visited
+                    | ApPanic => (visited, [])
+                    | ApYes => descend sub visited
+                    end
+                end
+            end
+      end.
 End Collect.
 
 (** ** executor state: the Errors accumulator and GroupedFieldSetCache *)
@@ -137,6 +210,8 @@ Record state := { st_errs : list gerror; st_cache : list (bytes * gfs) }.
 Definition init_state : state := {| st_errs := []; st_cache := [] |}.
 Definition add_err (e : gerror) (st : state) : state :=
   {| st_errs := st_errs st ++ [e]; st_cache := st_cache st |}.
+Definition add_errs (es : list gerror) (st : state) : state :=
+  {| st_errs := st_errs st ++ es; st_cache := st_cache st |}.
 
 Inductive res (A : Type) := ROk (a : A) | RErr (e : gerror) | RPanic | ROutOfFuel.
 Arguments ROk {A} a.
@@ -184,14 +259,16 @@ Section Exec.
       | Some g => (CFOk g, st)
       | None =>
           match collect_impl S D E fuel ot sels [] [] with
-          | COk _ g => (CFOk g, {| st_errs := st_errs st; st_cache := (key, g) :: st_cache st |})
+          | COk _ g =>
+              let st' := add_errs (snd (collect_errs S D E fuel ot sels [])) st in
+              (CFOk g, {| st_errs := st_errs st'; st_cache := (key, g) :: st_cache st' |})
           | CPanic => (CFPanic, st)
           | COutOfFuel => (CFOutOfFuel, st)
           end
       end
     else
       match collect_impl S D E fuel ot sels [] [] with
-      | COk _ g => (CFOk g, st)
+      | COk _ g => (CFOk g, add_errs (snd (collect_errs S D E fuel ot sels [])) st)
       | CPanic => (CFPanic, st)
       | COutOfFuel => (CFOutOfFuel, st)
       end.
@@ -426,3 +503,38 @@ Definition doc_depth (D : document) : nat :=
           (fold_right (fun f acc => Nat.max (sels_depth (fr_sels f)) acc) O (frags D)).
 Definition default_fuel (D : document) : nat :=
   ((length (frags D) + 1) * (doc_depth D + 1))%nat.
+
+(** ** GetOperation (executor.go) and the head of ExecuteRequest / newExecutor.
+    [opname] is Request.OperationName; the empty string stands for "none given".  The loop runs
+    over the definitions in document order, keeps the first match and fails at the second. *)
+Inductive gop := GOp (o : operation) | GMultiple (p : pos) | GNoMatch.
+
+Definition op_matches (opname : name) (o : operation) : bool :=
+  match opname with
+  | [] => true
+  | _ => match o_name o with Some n => name_eqb n opname | None => false end
+  end.
+
+Fixpoint get_operation_loop (ops : list operation) (opname : name) (ret : option operation) : gop :=
+  match ops with
+  | [] => match ret with Some o => GOp o | None => GNoMatch end
+  | o :: rest =>
+      if op_matches opname o then
+        match ret with
+        | Some _ => GMultiple (o_pos o)            (* newError(def, "Multiple matching operations.") *)
+        | None => get_operation_loop rest opname (Some o)
+        end
+      else get_operation_loop rest opname ret
+  end.
+Definition get_operation (R : request_doc) (opname : name) : gop := get_operation_loop (r_ops R) opname None.
+
+(** ExecuteRequest: a GetOperation error is the whole response (no data, that one error; "No
+    matching operations." has no node, hence no location).  [E]: the coerced variables of the
+    selected operation (CoerceVariableValues is C05; a coercion error is outside this model). *)
+Definition run_request (M : mode) (S : schema) (R : request_doc) (opname : name) (E : env) (fuel : nat)
+           (W : outcome) : run_result :=
+  match get_operation R opname with
+  | GOp o => run M S (doc_of R o) E fuel W
+  | GMultiple p => Done None [mk_err [] [p]]
+  | GNoMatch => Done None [mk_err [] []]
+  end.
